@@ -191,6 +191,26 @@ def multibyte_class_pattern(text, t, by_type):
     return False
 
 
+def wildcard_took_multibyte(text, t, by_type):
+    """Was a non-ASCII character inside this reference token matched by a wildcard or a negated class of its
+    pattern ('Dall.' with an unescaped dot taking '§')? Then replacing it by another non-ASCII character of
+    a different byte length leaves the match intact. For a byte-oriented engine such a wildcard takes ONE
+    byte: the engines' classes do not coincide on this token - outside the property's domain."""
+    idx = [i for i in range(t.start, t.end) if ord(text[i]) > 127]
+    if not idx:
+        return False
+    for e in by_type.get(type(t).__name__, []):
+        body, cls = split_regex(e)
+        if body is None or not body.fullmatch(text, t.start, t.end):
+            continue
+        for i in idx:
+            other = "\u20ac" if text[i] != "\u20ac" else "\u00e9"
+            t2 = text[:i] + other + text[i + 1:]
+            if body.fullmatch(t2, t.start, t.end):
+                return True
+    return False
+
+
 def compare_doc(text, rec, ref, hs, by_type):
     from eyecite import get_citations
     if not gen.ascii_ws_domain(text):
@@ -219,6 +239,9 @@ def compare_doc(text, rec, ref, hs, by_type):
             # the candidate itself contains a non-ASCII letter/digit that a unicode-aware \w or \d of its
             # pattern matched ('1999 N.Y.S.2d at 2004\U00010000'): Python's classes and Hyperscan's byte
             # classes do not coincide on this text for this pattern - outside the property's domain
+            rec.count("candidate_outside_domain_skipped")
+            continue
+        if k not in H and wildcard_took_multibyte(text, x, by_type):
             rec.count("candidate_outside_domain_skipped")
             continue
         if k not in H:
